@@ -102,4 +102,56 @@ theorem tie_skel_c04_createQueueManager : Gen.Skel.createQueueManager = [
   "}, nil",
   "}"] := by rfl
 
+/-! the mapper's view of the queue pair (where each ring starts) -/
+theorem tie_skel_c04_mappingQueueManager : Gen.Skel.mappingQueueManager = [
+  "func mappingQueueManager(shmPath string) (*queueManager, error) {",
+  "f, err := os.OpenFile(shmPath, os.O_RDWR, os.ModePerm)",
+  "if err != nil {",
+  "return nil, err",
+  "}",
+  "defer f.Close()",
+  "fileInfo, err := f.Stat()",
+  "if err != nil {",
+  "return nil, err",
+  "}",
+  "mappingSize := int(fileInfo.Size())",
+  "if isArmArch() && mappingSize%16 != 0 {",
+  "return nil, fmt.Errorf(\"the memory size of queue should be a multiple of 16\")",
+  "}",
+  "mem, err := syscall.Mmap(int(f.Fd()), 0, mappingSize, syscall.PROT_READ|syscall.PROT_WRITE, syscall.MAP_SHARED)",
+  "if err != nil {",
+  "return nil, err",
+  "}",
+  "return &queueManager{",
+  "sendQueue: mappingQueueFromBytes(mem[mappingSize/2:]),",
+  "recvQueue: mappingQueueFromBytes(mem[:mappingSize/2]),",
+  "mem: mem,",
+  "path: shmPath,",
+  "}, nil",
+  "}"] := by rfl
+
+theorem tie_skel_c04_mappingQueueManagerMemfd : Gen.Skel.mappingQueueManagerMemfd = [
+  "func mappingQueueManagerMemfd(queuePathName string, memFd int) (*queueManager, error) {",
+  "var fileInfo syscall.Stat_t",
+  "if err := syscall.Fstat(memFd, &fileInfo); err != nil {",
+  "return nil, err",
+  "}",
+  "mappingSize := int(fileInfo.Size)",
+  "if isArmArch() && mappingSize%16 != 0 {",
+  "return nil, fmt.Errorf(\"the memory size of queue should be a multiple of 16\")",
+  "}",
+  "mem, err := syscall.Mmap(memFd, 0, mappingSize, syscall.PROT_READ|syscall.PROT_WRITE, syscall.MAP_SHARED)",
+  "if err != nil {",
+  "return nil, err",
+  "}",
+  "return &queueManager{",
+  "sendQueue: mappingQueueFromBytes(mem[mappingSize/2:]),",
+  "recvQueue: mappingQueueFromBytes(mem[:mappingSize/2]),",
+  "mem: mem,",
+  "path: queuePathName,",
+  "memFd: memFd,",
+  "mmapMapType: MemMapTypeMemFd,",
+  "}, nil",
+  "}"] := by rfl
+
 end Tie.C04
